@@ -332,6 +332,15 @@ fn contents_for(ext: &str) -> Vec<(String, Vec<u8>)> {
         for (n, c) in raw {
             v.push((n.to_string(), c));
         }
+        if ext == "ans" {
+            v.push(("cursor jump below the first screen".into(), b"\x1b[40;1HX".to_vec()));
+            v.push(("text, cursor down 30 lines, text".into(), b"A\x1b[30BX".to_vec()));
+            v.push(("two lines, cursor home, text, scroll up".into(), b"line1\r\nline2\x1b[1;1HZ\x1b[2S".to_vec()));
+            v.push(("margins set from the screen height".into(), b"a\r\nb\r\nc\x1b[2;99r\x1b[99;1Hd\r\ne\r\nf".to_vec()));
+        }
+        if ext == "avt" {
+            v.push(("cursor jump below the first screen".into(), b"\x16\x08\x28\x01X".to_vec()));
+        }
         // a complete SAUCE record inside the content (a file that already had one)
         let inner = ref_append(b"inner", &RefSauce { data_type: 1, file_type: 1, t1: 80, t2: 1, flags: 0, comments: vec![b"inner comment".to_vec()], tinfos: vec![] });
         let mut c = inner.clone();
@@ -408,7 +417,8 @@ fn build(_prop: &str, tier: &str) -> Sauce {
         for w in (1..=1000).step_by(step) {
             let ok = match *ext {
                 "adf" => w == 80,
-                "bin" | "idf" => w % 2 == 0 && w <= 510,
+                "idf" => w <= 510, // the format itself stops there
+                "bin" => w <= 510 || w % 97 == 0,
                 _ => true,
             };
             if ok {
@@ -426,6 +436,13 @@ fn build(_prop: &str, tier: &str) -> Sauce {
             let counts: Vec<usize> = if ci == 0 || thorough { (0..=255).collect() } else { vec![0, 1, 2, 3, 254, 255] };
             for n in counts {
                 for style in 0..2 {
+                    jobs.push(Job::Split(fi, ci, n, style));
+                }
+            }
+            // the record declares another height than the content has (taller, one line): the height is not one of the settings
+            // the statement lets the picture depend on
+            for n in [0usize, 1] {
+                for style in [2usize, 3] {
                     jobs.push(Job::Split(fi, ci, n, style));
                 }
             }
@@ -454,6 +471,10 @@ fn check_meta(ext: &str, what: &str, m: &Meta, ctx: &mut Ctx) {
         Err(e) => {
             if e.starts_with("PANIC") {
                 ctx.violation(format!("{}:save:{ext}", e.replace("PANIC ", "")), json!({"format": ext, "varied": what, "meta": m.json()}));
+            } else if matches!(ext, "bin" | "idf") && (m.width % 2 != 0 || m.width > 510) {
+                // the BinaryText record stores width / 2 in one byte: the writer has to refuse what it cannot carry
+                ctx.count("variant_cannot_carry_width(refused by the writer)", 1);
+                ctx.outcome(4);
             } else if save(&doc, ext, false).is_err() {
                 // the format itself can't hold this document (e.g. ADF / IDF and fonts that are not 8x16): not a SAUCE matter
                 ctx.count("format_refuses_document", 1);
@@ -484,6 +505,12 @@ fn check_meta(ext: &str, what: &str, m: &Meta, ctx: &mut Ctx) {
     };
     let v = variant(ext);
     let mut diffs: Vec<(String, Value)> = Vec::new();
+    for (name, got_empty, want, raw) in [("title", s.title.is_empty(), carried(&m.title, 35, false), &m.title), ("author", s.author.is_empty(), carried(&m.author, 20, false), &m.author), ("group", s.group.is_empty(), carried(&m.group, 20, false), &m.group)] {
+        // (a field made of NUL bytes is stored as such: whether that counts as empty is not something the statement fixes)
+        if want.is_empty() != got_empty && !raw.contains(&0) {
+            diffs.push((format!("{name}-emptiness"), json!({"loaded_is_empty": got_empty, "expected_bytes": want})));
+        }
+    }
     let mut cmp = |name: &str, got: String, want: Vec<u8>| {
         if got != cp437(&want) {
             diffs.push((name.to_string(), json!({"loaded": got, "expected": cp437(&want), "expected_bytes": want})));
@@ -523,7 +550,8 @@ fn check_meta(ext: &str, what: &str, m: &Meta, ctx: &mut Ctx) {
             }
         }
     }
-    if matches!(v, Variant::Ansi | Variant::Ascii) {
+    // letter spacing and aspect ratio are part of ANSiFlags, which the Character/ANSi, Character/ASCII and BinaryText variants carry
+    if matches!(v, Variant::Ansi | Variant::Ascii | Variant::Bin) {
         if s.use_letter_spacing != m.spacing {
             diffs.push(("letter-spacing".into(), json!({"loaded": s.use_letter_spacing, "expected": m.spacing})));
         }
@@ -676,7 +704,7 @@ fn check_split(ext: &str, cname: &str, content: &[u8], n: usize, style: usize, c
     let (dt, ft) = type_of(ext, pa.w);
     let comments: Vec<Vec<u8>> = (0..n)
         .map(|i| match style {
-            0 => comment_text(i, n),
+            0 | 2 | 3 => comment_text(i, n),
             _ => {
                 // comment lines made of marker look-alikes
                 let mut l = if i % 2 == 0 { b"SAUCE00".to_vec() } else { b"COMNT".to_vec() };
@@ -685,7 +713,12 @@ fn check_split(ext: &str, cname: &str, content: &[u8], n: usize, style: usize, c
             }
         })
         .collect();
-    let rec = RefSauce { data_type: dt, file_type: ft, t1: pa.w as u16, t2: pa.h as u16, flags: if alone.ice_mode == IceMode::Ice && dt != 6 && !(dt == 1 && ft > 2) { 1 } else { 0 }, comments, tinfos: vec![] };
+    let t2 = match style {
+        2 => pa.h + 40,
+        3 => 1,
+        _ => pa.h,
+    };
+    let rec = RefSauce { data_type: dt, file_type: ft, t1: pa.w as u16, t2: t2 as u16, flags: if alone.ice_mode == IceMode::Ice && dt != 6 && !(dt == 1 && ft > 2) { 1 } else { 0 }, comments, tinfos: vec![] };
     let file = ref_append(content, &rec);
     let mut f = Fnv::new();
     f.str(ext);
